@@ -205,3 +205,252 @@ impl Sender {
         Pin::new(&mut self.inner).poll_send(&mut cx, path, &transmit)
     }
 }
+
+thread_local! {
+    static PATHS: RefCell<Vec<FourTuple>> = const { RefCell::new(Vec::new()) };
+}
+
+/// Called by `TransportsSender::poll_send` on entry with the four-tuple it was given.
+pub(crate) fn path(p: &FourTuple) {
+    PATHS.with(|c| {
+        let mut c = c.borrow_mut();
+        if c.len() >= 64 {
+            c.clear();
+        }
+        c.push(p.clone());
+    });
+}
+
+thread_local! {
+    static REMOTE: RefCell<Vec<iroh_base::EndpointId>> = const { RefCell::new(Vec::new()) };
+}
+
+/// Called by `Socket::try_send_remote_state_msg` on entry: records the endpoint a
+/// `SendDatagram` message is addressed to.
+pub(crate) fn remote_msg(id: iroh_base::EndpointId, msg: &crate::socket::remote_map::VerifRemoteStateMessage) {
+    if matches!(msg, crate::socket::remote_map::VerifRemoteStateMessage::SendDatagram(..)) {
+        REMOTE.with(|c| {
+            let mut c = c.borrow_mut();
+            if c.len() >= 64 {
+                c.clear();
+            }
+            c.push(id);
+        });
+    }
+}
+
+/// The real outer sender (`socket::transports::Sender`, the `noq::UdpSender` QUIC talks to)
+/// over a bare `Socket`: real mapped-address maps, real IP sockets, relay senders and
+/// `RemoteStateActor` inboxes that are channels read here, recording custom senders.
+#[cfg(with_crypto_provider)]
+pub mod outer {
+    use std::collections::HashMap;
+
+    use iroh_base::{EndpointId, RelayUrl};
+
+    use super::*;
+    use crate::socket::{
+        mapped_addrs::{
+            CustomMappedAddr, EndpointIdMappedAddr, MappedAddr, RelayMappedAddr, verif_c18::Map,
+        },
+        remote_map::MappedAddrs,
+        transports::Sender as RealSender,
+    };
+    use crate::verif_hooks::c18::{NKEYS, custom_key, endpoint_key, relay_key};
+
+    /// A key that is none of the numbered ones.
+    pub const NOKEY: u64 = u64::MAX;
+
+    /// The four-tuple `TransportsSender::poll_send` was called with, keys as numbers.
+    #[derive(Debug, Clone, PartialEq, Eq)]
+    pub enum PathObs {
+        Ip { remote: SocketAddr, local: Option<IpAddr> },
+        Relay(u64),
+        Custom { remote: u64, local: Option<u64> },
+    }
+
+    /// Everything observable about one `poll_send`.
+    #[derive(Debug, Clone)]
+    pub struct SendObs {
+        /// 0 `Ready(Ok)`, 1 `Ready(Err)`, 2 `Pending`.
+        pub res: u8,
+        /// The error was `NotConnected`.
+        pub not_connected: bool,
+        /// Endpoint keys `try_send_remote_state_msg` was called for with a `SendDatagram`.
+        pub remote_tried: Vec<u64>,
+        /// Endpoint keys whose `RemoteStateActor` inbox received a `SendDatagram`.
+        pub remote: Vec<u64>,
+        /// Four-tuples handed to `TransportsSender::poll_send`.
+        pub paths: Vec<PathObs>,
+        /// `(port of the IP socket chosen, via the default rule)`.
+        pub chosen: Vec<(u16, bool)>,
+        /// Custom senders polled: `(index, remote key, local key)`.
+        pub custom: Vec<(usize, u64, Option<u64>)>,
+        /// Relay channels that received the datagram: `(index, relay key)`.
+        pub relay: Vec<(usize, u64)>,
+    }
+
+    pub struct Outer {
+        inner: RealSender,
+        e: Map<EndpointId, EndpointIdMappedAddr>,
+        r: Map<(RelayUrl, EndpointId), RelayMappedAddr>,
+        c: Map<CustomAddr, CustomMappedAddr>,
+        rev_e: HashMap<EndpointId, u64>,
+        rev_r: HashMap<(RelayUrl, EndpointId), u64>,
+        rev_c: HashMap<CustomAddr, u64>,
+        log: Arc<Mutex<Vec<(usize, CustomAddr, Option<CustomAddr>)>>>,
+        #[allow(clippy::type_complexity)]
+        relay_drains: Vec<Box<dyn FnMut() -> Vec<(RelayUrl, EndpointId)> + Send>>,
+        inbox_drain: Box<dyn FnMut() -> Vec<EndpointId> + Send>,
+    }
+
+    impl Outer {
+        /// `cfgs`, `customs` as in [`super::Sender::new`]; `relays`: one relay sender per entry
+        /// (0 room, 1 closed channel, 2 full channel); `inboxes`: `(endpoint key, behaviour)`
+        /// (0 room, 1 closed, 2 full), keys not listed have no actor.  Inside a tokio runtime.
+        pub fn new(
+            cfgs: &[Cfg],
+            relays: &[u8],
+            customs: &[(Vec<u64>, u8)],
+            inboxes: &[(u64, u8)],
+        ) -> Result<(Self, Layout), (u8, String)> {
+            let configs: Vec<IpConfig> =
+                cfgs.iter().map(|c| c.config().expect("valid prefix")).collect();
+            let log = Arc::new(Mutex::new(Vec::new()));
+            let custom: Vec<Arc<dyn CustomSender>> = customs
+                .iter()
+                .enumerate()
+                .map(|(index, (accepts, behaviour))| {
+                    Arc::new(RecSender {
+                        index,
+                        accepts: accepts.clone(),
+                        behaviour: *behaviour,
+                        log: log.clone(),
+                    }) as Arc<dyn CustomSender>
+                })
+                .collect();
+            let e = Map::default();
+            let r = Map::default();
+            let c = Map::default();
+            let mapped = MappedAddrs::verif_from_maps(&e, &r, &c);
+            let inboxes = inboxes.iter().map(|(k, b)| (endpoint_key(*k), *b)).collect();
+            let metrics = EndpointMetrics::default();
+            match RealSender::verif_new(configs, relays.to_vec(), custom, mapped, inboxes, &metrics)
+            {
+                Ok((inner, (v4, d4, v6, d6), relay_drains, inbox_drain)) => {
+                    let mut this = Self {
+                        inner,
+                        e,
+                        r,
+                        c,
+                        rev_e: HashMap::new(),
+                        rev_r: HashMap::new(),
+                        rev_c: HashMap::new(),
+                        log,
+                        relay_drains,
+                        inbox_drain,
+                    };
+                    for n in 0..NKEYS {
+                        this.rev_e.insert(endpoint_key(n), n);
+                        this.rev_r.insert(relay_key(n), n);
+                        this.rev_c.insert(custom_key(n), n);
+                    }
+                    Ok((
+                        this,
+                        (v4.iter().map(port_of).collect(), d4, v6.iter().map(port_of).collect(), d6),
+                    ))
+                }
+                Err(err) => {
+                    let msg = err.to_string();
+                    let kind = if msg.contains("can only have a single") { 1 } else { 2 };
+                    Err((kind, msg))
+                }
+            }
+        }
+
+        /// `map.get(&key).private_socket_addr()` on the socket's own map of `kind`
+        /// (0 endpoint id, 1 relay, 2 custom).
+        pub fn get(&self, kind: u8, key: u64) -> SocketAddr {
+            match kind {
+                0 => self.e.get(&endpoint_key(key)).private_socket_addr(),
+                1 => self.r.get(&relay_key(key)).private_socket_addr(),
+                _ => self.c.get(&custom_key(key)).private_socket_addr(),
+            }
+        }
+
+        /// Sets what `Socket::is_closed` returns.
+        pub fn set_closed(&self, closed: bool) {
+            self.inner.verif_set_closed(closed);
+        }
+
+        /// One real `<Sender as noq::UdpSender>::poll_send` of a datagram QUIC addresses to
+        /// `dest` with source address `src`.
+        pub fn send(&mut self, dest: SocketAddr, src: Option<IpAddr>) -> SendObs {
+            CHOSEN.with(|c| c.borrow_mut().clear());
+            PATHS.with(|c| c.borrow_mut().clear());
+            REMOTE.with(|c| c.borrow_mut().clear());
+            self.log.lock().unwrap().clear();
+            let waker = std::task::Waker::noop();
+            let mut cx = Context::from_waker(waker);
+            let transmit = noq_udp::Transmit {
+                destination: dest,
+                ecn: None,
+                contents: b"c19",
+                segment_size: None,
+                src_ip: src,
+            };
+            let res = self.inner.verif_poll_send(&transmit, &mut cx);
+            let not_connected =
+                matches!(&res, Poll::Ready(Err(e)) if e.kind() == io::ErrorKind::NotConnected);
+            let key_c = |a: &CustomAddr| self.rev_c.get(a).copied().unwrap_or(NOKEY);
+            let paths = PATHS
+                .with(|c| std::mem::take(&mut *c.borrow_mut()))
+                .into_iter()
+                .map(|p| match p {
+                    FourTuple::Ip { remote, local } => PathObs::Ip { remote, local },
+                    FourTuple::Relay { url, endpoint_id } => PathObs::Relay(
+                        self.rev_r.get(&(url, endpoint_id)).copied().unwrap_or(NOKEY),
+                    ),
+                    FourTuple::Custom { remote, local } => PathObs::Custom {
+                        remote: key_c(&remote),
+                        local: local.as_ref().map(key_c),
+                    },
+                })
+                .collect();
+            let chosen = CHOSEN
+                .with(|c| std::mem::take(&mut *c.borrow_mut()))
+                .iter()
+                .map(|(c, d)| (port_of(c), *d))
+                .collect();
+            let custom = std::mem::take(&mut *self.log.lock().unwrap())
+                .iter()
+                .map(|(i, d, s)| (*i, key_c(d), s.as_ref().map(key_c)))
+                .collect();
+            let mut relay = Vec::new();
+            for (i, drain) in self.relay_drains.iter_mut().enumerate() {
+                for item in drain() {
+                    relay.push((i, self.rev_r.get(&item).copied().unwrap_or(NOKEY)));
+                }
+            }
+            let remote = (self.inbox_drain)()
+                .iter()
+                .map(|id| self.rev_e.get(id).copied().unwrap_or(NOKEY))
+                .collect();
+            let remote_tried = REMOTE
+                .with(|c| std::mem::take(&mut *c.borrow_mut()))
+                .iter()
+                .map(|id| self.rev_e.get(id).copied().unwrap_or(NOKEY))
+                .collect();
+            SendObs {
+                res: code(res),
+                not_connected,
+                remote_tried,
+                remote,
+                paths,
+                chosen,
+                custom,
+                relay,
+            }
+        }
+    }
+}
